@@ -43,8 +43,10 @@ Hypothesis H_h160_len : forall m, length (hash160 m) = 20%nat.
 Hypothesis H_h160_bytes : forall m, Bytes (hash160 m).
 Hypothesis H_ser_len : forall P, length (ser_point P) = 33%nat.
 Hypothesis H_mul_nonzero : forall a, (0 < a < Bip32Spec.n)%Z -> pzero (point_of_scalar a) = false.
-(* the compressed encoding is canonical: whatever ParsePubKey accepts is the serialisation of a finite point *)
-Hypothesis H_ser_parse : forall b P, parse_point b = Ok P -> b = ser_point P /\ pzero P = false.
+(* the compressed encoding is canonical: whatever 33-BYTE string ParsePubKey accepts is the serialisation of a
+   finite point.  (Restricted to 33 bytes in review round 2: bchec.ParsePubKey also accepts the 65-byte
+   uncompressed and hybrid encodings, for which the unrestricted statement is false.) *)
+Hypothesis H_ser_parse : forall b P, length b = 33%nat -> parse_point b = Ok P -> b = ser_point P /\ pzero P = false.
 
 Ltac clear_vars := try clear dsha; try clear hash160; try clear parse_point; try clear ser_point; try clear pzero;
   try clear padd; try clear point_of_scalar; try clear hmac512; try clear point.
@@ -158,7 +160,7 @@ Proof using H_ser_parse.
     (split; [exact Hdep|]); (split; [exact Hcn|]).
   - split; [rewrite skipn_length, slice_length; lia|]. split; [apply Bytes_skipn, Bytes_slice; exact Hplb|].
     apply out_of_range_false. exact Eo.
-  - exists P. apply H_ser_parse. exact EP.
+  - exists P. apply H_ser_parse; [rewrite slice_length; lia | exact EP].
 Qed.
 
 (* keys produced by the library without hitting the C04 gap *)
